@@ -151,8 +151,8 @@ Section Spec.
           else forall f, In f (o_files ob) -> fo_kind f <> 2%N) /\
     (* C15: nothing in the directory that is neither base.ext, base-<stamp>.ext nor planted by the harness *)
     (forall f, In f (o_files ob) -> fo_kind f <> 9%N) /\
-    (* C15: without limits no rotated file, except what external renames made *)
-    (maxBytes c <= 0 -> maxDur c <= 0 -> (N.of_nat (length (filter (fun f => N.eqb (fo_kind f) 1) (o_files ob))) <= nren)%N).
+    (* C15: without limits no stamped file, except what external renames made (MaxDuration < 0 gives stamped names) *)
+    (maxBytes c <= 0 -> maxDur c = 0 -> (N.of_nat (length (filter (fun f => N.eqb (fo_kind f) 1) (o_files ob))) <= nren)%N).
 
   Lemma existsb_kind (k : N) fs : existsb (fun f => N.eqb (fo_kind f) k) fs = true <-> exists f, In f fs /\ fo_kind f = k.
   Proof. rewrite existsb_exists. split; intros [f [H1 H2]]; exists f; split; try exact H1; apply N.eqb_eq; exact H2. Qed.
@@ -231,9 +231,9 @@ Section Spec.
     (* 6 stray, 7 no limits *)
     assert (H6 : (if existsb (fun f => N.eqb (fo_kind f) 9) (o_files ob) then [KStray] else []) = [] <-> (forall f, In f (o_files ob) -> fo_kind f <> 9%N)).
     { rewrite ite_nil_f. apply existsb_kind_false. }
-    assert (H7 : (if (maxBytes c <=? 0) && (maxDur c <=? 0) && N.ltb nren (N.of_nat (length (filter (fun f => N.eqb (fo_kind f) 1) (o_files ob)))) then [KNoRot] else []) = [] <->
-                 (maxBytes c <= 0 -> maxDur c <= 0 -> (N.of_nat (length (filter (fun f => N.eqb (fo_kind f) 1) (o_files ob))) <= nren)%N)).
-    { rewrite ite_nil_f. destruct (maxBytes c <=? 0) eqn:E1, (maxDur c <=? 0) eqn:E2; cbn [andb]; try (split; [intros _ A B; lia|reflexivity]).
+    assert (H7 : (if (maxBytes c <=? 0) && (maxDur c =? 0) && N.ltb nren (N.of_nat (length (filter (fun f => N.eqb (fo_kind f) 1) (o_files ob)))) then [KNoRot] else []) = [] <->
+                 (maxBytes c <= 0 -> maxDur c = 0 -> (N.of_nat (length (filter (fun f => N.eqb (fo_kind f) 1) (o_files ob))) <= nren)%N)).
+    { rewrite ite_nil_f. destruct (maxBytes c <=? 0) eqn:E1, (maxDur c =? 0) eqn:E2; cbn [andb]; try (split; [intros _ A B; lia|reflexivity]).
       rewrite N.ltb_ge. split; [intros H _ _; exact H|intros H; apply H; lia]. }
     rewrite H1, H2, H3, H4, H5, H6, H7. tauto.
   Qed.
@@ -243,7 +243,7 @@ End Spec.
 Definition ackd_next (E : list N) (o : op) (ok : bool) (ackd : list N) : list N :=     (* empty events are not expected in the files *)
   match o with Write id _ _ _ _ _ _ _ => if ok && negb (memN id E) then ackd ++ [id] else ackd | _ => ackd end.
 Definition nren_next (x : xop) (nren : N) : N := match x with XOp (ExtRename _) => N.succ nren | _ => nren end.
-Definition removed_next (x : xop) (removed : bool) : bool := match x with XOp _ => removed | _ => true end.
+Definition removed_next (x : xop) (removed : bool) : bool := match x with XOp _ | XUnformatted _ => removed | _ => true end.
 Definition dirgone_next (x : xop) (dirgone : bool) : bool := match x with XRmDir _ => true | _ => dirgone end.
 
 Section Case.
